@@ -13,6 +13,7 @@ from harness.acc import Accessory, http
 from harness.common import Ctx, Driver, compare_with_model, load_corpus, shrink_list
 from harness.rcsim import settle
 
+from aiohomekit import hkjson
 from aiohomekit.characteristic_cache import CharacteristicCacheMemory
 from aiohomekit.controller.ip.pairing import IpPairing
 
@@ -20,13 +21,21 @@ ID = "C12"
 RULE = ("histories on the simulated network (unpatched IpPairing against a scaffold accessory with real pair-verify and encrypted frames), EXHAUSTIVE to depth 4 (quick) / 5 (thorough) over "
         "{subscribe / unsubscribe overlapping sets on two accessory ids (lists with interleaved ids), subscribe cut off by a disconnection, accessory drops the connection, reconnect, "
         "register listener of each kind (normal, raising, unregistering itself inside the callback, registering another listener inside the callback), remove listener, "
-        "event bursts (1..3 EVENT messages in one read or split at arbitrary byte offsets; empty, non-JSON and non-UTF-8 bodies)} plus random histories to length 30. "
+        "event bursts (1..3 EVENT messages in one read or split at arbitrary byte offsets; empty, non-JSON and non-UTF-8 bodies; bodies in every dialect the library's own JSON layer hkjson.loads accepts - trailing commas in "
+        "arrays and objects, // and # comments, CRLF/tab pretty-printing, permuted and extra keys, non-ASCII strings, values longer than one encrypted frame - and near-JSON it rejects - block comments, single quotes, doubled and leading "
+        "commas, NaN, truncated and concatenated documents; every event carries its own value so that order and multiplicity are observed per event)} plus random histories to length 30; "
+        "OVERLAPPING-CALL histories (stream overlap): the accessory withholds its answers to PUT /characteristics while further subscribe / unsubscribe calls (disjoint and overlapping sets, two accessory ids, list/tuple/set arguments) are issued by other tasks "
+        "- subscribe during unsubscribe, unsubscribe during subscribe, several of each, calls issued while disconnected and overtaken by the reconnect, calls issued during the re-subscription of a reconnect - answers released one at a time, all at once, or "
+        "in the same read as EVENT messages, connection drops with calls in flight, events arriving while a request is unanswered, then disconnect/reconnect cycles (directed family over all pairs of calls x sets x release order + random histories to length 24). "
         "non-trivial = distinct history")
-TRUSTED = ["harness/simnet.py virtual-time loop and in-memory transport", "harness/acc.py scaffold accessory: per-session record of ev registrations from PUT /characteristics", "orjson parses the event bodies"]
+TRUSTED = ["harness/simnet.py virtual-time loop and in-memory transport", "harness/acc.py scaffold accessory: per-session record of ev registrations from PUT /characteristics", "orjson parses the event bodies", "aiohomekit.hkjson.loads, called by the harness on the body it sends, decides whether a lenient body is an event (the library's documented JSON dialect); what the event then means is the harness's own construction"]
 ASSUMPTIONS = ["one model event = one harness action followed by running the loop to quiescence",
                "a subscribe issued while disconnected is left to run out its 10 s pairing-level wait before the next action (so it cannot overlap a later reconnect)",
                "reconnection is refused by the simulated network until the explicit reconnect event; no request of the accessory is answered with a per-characteristic error status",
-               "the order in which listeners are called within one delivery is not observed (set iteration order); each listener's own log is"]
+               "the order in which listeners are called within one delivery is not observed (set iteration order); each listener's own log is",
+               "overlap stream: implementation-level oracles only (the Lean automaton has one atomic event per call); the caller-side reference under overlapping calls is linearizability per characteristic: a characteristic MUST be registered at a quiescent connected point "
+               "iff every call touching it that can be last in some order consistent with issue/return times is a subscribe; an unsubscribe that raised still counts as a possible remover; the accessory answers in arrival order (the library sends one request at a time); "
+               "an answer withheld for 30 s of virtual time counts as a disconnection (the library's request timeout)"]
 EXPLANATION = ("Lean theorems C12_* over the subscription/listener automaton HapVerif.Subs (wanted set changes only by subscribe/unsubscribe; after every connect the registered set covers the wanted set unless the polling fallback was entered, "
                "and every listener is told; each delivery calls every listener of the snapshot exactly once, bursts in order; raising/unregistering/registering listeners do not affect the others or the connection; junk bodies deliver nothing) "
                "+ differential tie on the accessory's per-session registrations and every listener's call log")
@@ -51,11 +60,141 @@ def show_chs(cs):
     return ",".join(f"{a}.{i}" for a, i in cs) if cs else "-"
 
 
-def body_bytes(b):
-    if b.startswith("c="):
-        keys = parse_chs(b[2:])
-        return json.dumps({"characteristics": [{"aid": a, "iid": i, "value": 1} for a, i in keys]}).encode()
-    return {"empty": b"", "notjson": b"garbage{", "notutf8": b"\xff\xfe\xfa"}[b]
+# dialects of an EVENT body `c=<keys>@<dialect>`.  LENIENT: accepted by the library's JSON layer (strict JSON in unusual layouts, and the
+# tolerant fallback of hkjson.loads: trailing commas, // and # comments); NEARJSON: looks like JSON, is rejected by it.  Which is which is NOT
+# hard-wired: event_keys() asks hkjson.loads about the very bytes that are sent.
+LENIENT = ("tc", "tco", "cm", "hc", "ws", "mix", "ord", "uni", "unitc", "big", "bigtc")
+NEARJSON = ("blk", "sq", "dc", "lead", "nan", "trunc", "two")
+
+
+def event_value(dialect, n):
+    """the value carried by the n-th event body of a history (distinct per body, so order and multiplicity are observable)"""
+    if dialect in ("uni", "unitc"):
+        return f"\u00e9\u4e2d\u2603 {n}"
+    if dialect in ("big", "bigtc"):
+        return f"{n}-" + "x" * 1500   # the EVENT message spans more than one 1024-byte encrypted frame
+    return n
+
+
+def split_body(b):
+    """'c=1.10,2.20@tc' -> ([(1, 10), (2, 20)], 'tc'); plain 'c=...' -> (keys, None); other tokens -> (None, None)"""
+    if not b.startswith("c="):
+        return None, None
+    chs, _, dialect = b[2:].partition("@")
+    return parse_chs(chs), (dialect or None)
+
+
+def body_bytes(b, n=1):
+    keys, dialect = split_body(b)
+    if keys is None:
+        return {"empty": b"", "notjson": b"garbage{", "notutf8": b"\xff\xfe\xfa"}[b]
+    if dialect is None:
+        return json.dumps({"characteristics": [{"aid": a, "iid": i, "value": n} for a, i in keys]}).encode()
+    v = json.dumps(event_value(dialect, n), ensure_ascii=False)
+    items = [f'{{"aid":{a},"iid":{i},"value":{v}}}' for a, i in keys]
+    strict = '{"characteristics":[' + ",".join(items) + "]}"
+    if dialect in ("tc", "unitc", "bigtc"):      # trailing comma in the array
+        t = '{"characteristics":[' + "".join(x + "," for x in items) + "]}"
+    elif dialect == "tco":                       # trailing commas in every object and in the array
+        t = '{"characteristics":[' + "".join(x[:-1] + ",}," for x in items) + "],}"
+    elif dialect == "cm":                        # // comments
+        t = '// event notification\n{"characteristics":[' + ",".join(items) + "] // end of the list\n}"
+    elif dialect == "hc":                        # # comments
+        t = '# event notification\n{"characteristics":[' + ",".join(items) + "]} # done"
+    elif dialect == "ws":                        # strict JSON, pretty-printed with CRLF and tabs
+        t = "\r\n" + json.dumps({"characteristics": [{"aid": a, "iid": i, "value": n} for a, i in keys]}, indent="\t").replace("\n", "\r\n") + "\r\n"
+    elif dialect == "mix":                       # comments, trailing commas and layout together
+        t = '// ev\n{ "characteristics" : [\n' + "".join("  " + x + ", # item\n" for x in items) + "  ],\n}\n"
+    elif dialect == "ord":                       # strict JSON, other key order, extra members
+        t = '{"extra":null,"characteristics":[' + ",".join(f'{{"iid":{i},"value":{v},"status":0,"aid":{a}}}' for a, i in keys) + "]}"
+    elif dialect in ("uni", "big"):              # strict JSON with non-ASCII / long string values
+        t = strict
+    elif dialect == "blk":
+        t = "/* event */" + strict
+    elif dialect == "sq":
+        t = strict.replace('"', "'")
+    elif dialect == "dc":
+        t = '{"characteristics":[' + "".join(x + ",," for x in items) + "]}"
+    elif dialect == "lead":
+        t = '{"characteristics":[,' + ",".join(items) + "]}"
+    elif dialect == "nan":
+        t = strict.replace('"value":' + v, '"value":NaN')
+    elif dialect == "trunc":
+        t = strict[:-2]
+    elif dialect == "two":
+        t = strict + strict
+    else:
+        raise ValueError(b)
+    return t.encode("utf-8")
+
+
+_GATE = {}
+
+
+def event_keys(b):
+    """The keys of the event that body token `b` is, or None when it is no event.  Plain `c=` bodies are strict JSON built by the harness;
+    for a dialect body the library's JSON layer is asked, by the harness, whether it accepts the bytes that are sent (hkjson.loads is the
+    documented dialect of everything the library receives); WHAT the event says is the harness's own construction, not the parse."""
+    keys, dialect = split_body(b)
+    if keys is None:
+        return None
+    if dialect is None:
+        return keys
+    if b not in _GATE:
+        body = body_bytes(b, 1)
+        try:
+            parsed = hkjson.loads(body.decode("utf-8"))
+            ok = isinstance(parsed, dict) and isinstance(parsed.get("characteristics"), list) and \
+                [(c.get("aid"), c.get("iid")) if isinstance(c, dict) else None for c in parsed["characteristics"]] == keys
+        except hkjson.JSON_DECODE_EXCEPTIONS:
+            ok = False
+        _GATE[b] = ok
+    return keys if _GATE[b] else None
+
+
+def model_body(b):
+    """the body token as the Lean automaton knows it: an event with these keys, or a non-JSON body"""
+    keys, dialect = split_body(b)
+    if dialect is None:
+        return b
+    return ("c=" + ",".join(f"{a}.{i}" for a, i in keys)) if event_keys(b) is not None else "notjson"
+
+
+def event_bytes(bodies, counter):
+    """-> (the EVENT messages, [(sorted key set, value)] of those that are events) for the body tokens of one burst"""
+    data, want = b"", []
+    for b in bodies:
+        counter[0] += 1
+        data += http(body_bytes(b, counter[0]), b"application/hap+json", kind=b"EVENT/1.0")
+        keys = event_keys(b)
+        if keys is not None:
+            want.append((sorted(set(keys)), event_value(split_body(b)[1], counter[0])))
+    return data, want
+
+
+def seen_values(ev):
+    """what a listener was handed, as [(key, value)]"""
+    return sorted((k, (v.get("value") if isinstance(v, dict) else repr(v))) for k, v in ev.items())
+
+
+def expected_values(keys, value):
+    return sorted((k, value) for k in keys)
+
+
+class Outcomes:
+    """scripted outcomes of simnet.Net for connection attempts: `ok` armed successes, every other attempt refused"""
+
+    def __init__(self):
+        self.ok = 0
+
+    def __bool__(self):
+        return True
+
+    def pop(self, _i=0):
+        if self.ok > 0:
+            self.ok -= 1
+            return "ok"
+        return "refused"
 
 
 async def scenario(loop, events, seed):
@@ -90,20 +229,24 @@ async def scenario(loop, events, seed):
     ctrl._char_cache = CharacteristicCacheMemory()
     lines, problems = [], []
     logs = {}      # listener id -> list of key lists
+    vlogs = {}     # listener id -> list of [(key, value)] lists (what each call carried)
+    evno = [0]     # number of event bodies sent so far: the n-th body carries value n
     kinds = {}
     removers = {}
     cb_ids = {}
     with net.patched():
         p = IpPairing(ctrl, acc.pairing_data(["10.0.0.1"]))
         conn = p.connection
-        net.connect_outcomes = ["refused"] * 1000000
+        net.connect_outcomes = Outcomes()
 
         def make_listener(lid, kind):
             logs[lid] = []
+            vlogs[lid] = []
             kinds[lid] = kind
 
             def cb(ev):
                 logs[lid].append(sorted(ev.keys()))
+                vlogs[lid].append(seen_values(ev))
                 if kind == "x":
                     raise ValueError("listener boom")
                 if kind == "rm":
@@ -145,6 +288,7 @@ async def scenario(loop, events, seed):
             elif k == "unsub":
                 wanted_ref -= set(parse_chs(f[1]))  # this accessory accepts every unsubscription
             n_sessions_before = len(acc.order)
+            sent = []
             was_connected = bool(p.is_connected)
             was_supported = bool(p.supports_subscribe)
             before_active = active_ids(p, cb_ids)
@@ -162,7 +306,7 @@ async def scenario(loop, events, seed):
                     net.open[-1].peer_close()
             elif k == "conn":
                 if not p.is_connected:
-                    net.connect_outcomes = ["ok"] + ["refused"] * 1000000
+                    net.connect_outcomes.ok = 1
                     conn.reconnect_soon()
             elif k == "ladd":
                 lid, kind = f[1].split(":")
@@ -175,7 +319,7 @@ async def scenario(loop, events, seed):
             elif k == "ev":
                 if p.is_connected and net.open:
                     t = net.open[-1]
-                    data = b"".join(http(body_bytes(b), b"application/hap+json", kind=b"EVENT/1.0") for b in f[1].split("|"))
+                    data, sent = event_bytes(f[1].split("|"), evno)
                     data = acc.frame(acc.sessions[t], data)
                     cuts = sorted(rnd.sample(range(1, len(data)), min(rnd.choice([0, 0, 1, 3]), len(data) - 1)))
                     prev = 0
@@ -202,13 +346,19 @@ async def scenario(loop, events, seed):
                     if logs[lid][before_len[lid]:] != [[]]:
                         problems.append(("not-told-connection-back", f"listener {lid} got {logs[lid][before_len[lid]:]} instead of one empty 'connection is back' event"))
             if k == "ev" and was_connected:
-                want = [sorted(set(parse_chs(b[2:]))) for b in f[1].split("|") if b.startswith("c=")]
+                want = [ks for ks, _ in sent]
                 for lid in before_active:
                     got = logs[lid][before_len[lid]:]
                     exp = want[:1] if kinds[lid] == "rm" else want
                     if got != exp:
                         sig = "event-lost" if len(got) < len(exp) else ("event-duplicated" if len(got) > len(exp) else "event-wrong")
-                        problems.append((sig, f"listener {lid} ({kinds[lid]}) got {got} but the accessory sent {exp}"))
+                        problems.append((sig, f"listener {lid} ({kinds[lid]}) got {got} but the accessory sent {exp} (bodies {f[1]})"))
+                    else:
+                        gotv = vlogs[lid][before_len[lid]:]
+                        expv = [expected_values(ks, v) for ks, v in (sent[:1] if kinds[lid] == "rm" else sent)]
+                        if gotv != expv:
+                            sig = "event-out-of-order" if sorted(map(repr, gotv)) == sorted(map(repr, expv)) else "event-wrong"
+                            problems.append((sig, f"listener {lid} ({kinds[lid]}) was handed {short(gotv)} but the accessory sent {short(expv)} (bodies {f[1]})"))
                 if not p.is_connected:
                     problems.append(("connection-broken-by-event", f"the connection was torn down while delivering {f[1]}"))
             if was_supported and not p.supports_subscribe and not (k == "cutsub" and was_connected):
@@ -221,16 +371,401 @@ async def scenario(loop, events, seed):
     return lines, problems
 
 
+# ---------------------------------------------------------------------------------------------------------------
+# overlapping calls: the accessory withholds its answers while other tasks call subscribe / unsubscribe
+#
+# steps:  sub:<chs> / unsub:<chs>   start the call in its own task (it is NOT awaited: it returns whenever the library lets it)
+#         hold                      from now on the accessory withholds its answers to PUT /characteristics (it acts on them on arrival)
+#         rel                       the oldest withheld answer is sent
+#         relev:<bodies>            the oldest withheld answer and an EVENT burst arrive in the same read (either order, cut anywhere)
+#         free                      every withheld answer is sent, in order, and answers are immediate again
+#         ev:<bodies>               an EVENT burst (also while a request is unanswered)
+#         drop / conn               as in the sequential histories
+#         wait                      10.5 s pass (a call issued while disconnected gives up after 10 s)
+
+def must_be_subscribed(ops):
+    """Caller-side reference under overlapping calls.  Each call has an issue time and (once it returned or raised) a return time; any order
+    of the calls that respects 'returned before the other was issued' is a legitimate reading of what the callers asked for.  A
+    characteristic MUST be subscribed iff in every such order the last call touching it is a subscribe: i.e. every call touching it
+    that no later-issued call touching it follows (a 'possibly last' one) is a subscribe.  (A subscribe(C) issued while an
+    unsubscribe(X) is unanswered leaves every c in C - X subscribed whatever the completion order.)"""
+    must = set()
+    for c in set().union(*[op["chs"] for op in ops]) if ops else ():
+        touching = [op for op in ops if c in op["chs"]]
+        last = [x for x in touching if x["done"] is None or not any(y["issued"] > x["done"] for y in touching)]
+        if last and all(x["kind"] == "sub" for x in last):
+            must.add(c)
+    return must
+
+
+async def overlap_scenario(loop, steps, seed):
+    rnd = random.Random(seed)
+    net = simnet.Net(loop)
+    acc = Accessory(loop, net, lambda n: bytes(rnd.randrange(256) for _ in range(n)))
+    st = {"hold": False}
+    held = []   # withheld answers: [session, reply bytes, the request asked for events, virtual time of arrival]
+
+    def responder(s, method, target, body):
+        if target == "/characteristics" and method == "PUT":
+            d = json.loads(body)
+            refused = asks = False
+            for c in d["characteristics"]:
+                if "ev" in c:
+                    s.sub_log.append((c["aid"], c["iid"], bool(c["ev"])))
+                    (s.subs.add if c["ev"] else s.subs.discard)((c["aid"], c["iid"]))
+                    asks = asks or bool(c["ev"])
+                    refused = refused or (c["ev"] and c["iid"] >= 90)
+            if refused:
+                rows = [{"aid": c["aid"], "iid": c["iid"], "status": (-70406 if c["iid"] >= 90 else 0)} for c in d["characteristics"]]
+                reply = http(json.dumps({"characteristics": rows}).encode(), b"application/hap+json", code=b"207 Multi-Status")
+            else:
+                reply = b"HTTP/1.1 204 No Content\r\n\r\n"
+            if st["hold"]:
+                held.append([s, reply, asks, loop.time()])
+                return None
+            return reply
+        return http(b"{}", b"application/hap+json")
+    acc.responder = responder
+    ctrl = MagicMock()
+    ctrl._char_cache = CharacteristicCacheMemory()
+    problems = []
+    stats = {"stable-checks": 0, "max-pending-calls": 0, "calls-overlapping": 0, "calls-cut": 0, "resub-overlapped": 0}
+    logs, vlogs = {1: [], 2: []}, {1: [], 2: []}
+    evno = [0]
+    ops = []
+    clock = itertools.count(1)
+    cut_seen = False   # a subscription request (a caller's or the re-subscription of a reconnect) was pending when the connection went away
+    with net.patched():
+        p = IpPairing(ctrl, acc.pairing_data(["10.0.0.1"]))
+        conn = p.connection
+        net.connect_outcomes = Outcomes()
+
+        def l1(ev):
+            logs[1].append(sorted(ev.keys()))
+            vlogs[1].append(seen_values(ev))
+
+        def l2(ev):
+            logs[2].append(sorted(ev.keys()))
+            vlogs[2].append(seen_values(ev))
+            raise ValueError("listener boom")
+        p.dispatcher_connect(l1)
+        p.dispatcher_connect(l2)
+
+        def current():
+            t = net.open[-1] if net.open else None
+            return t if (t is not None and acc.sessions[t].secure) else None
+
+        def issue(kind, chs):
+            shape = (list, tuple, set)[len(ops) % 3]   # callers pass any re-iterable collection
+            arg = shape(chs)
+            op = {"kind": kind, "chs": set(chs), "issued": next(clock), "done": None, "exc": None, "disc": current() is None or not p.is_connected}
+            t = asyncio.ensure_future(p.subscribe(arg) if kind == "sub" else p.unsubscribe(arg))
+
+            def fin(t, op=op):
+                op["done"] = next(clock)
+                if t.cancelled():
+                    op["exc"] = "CancelledError"
+                elif t.exception() is not None:
+                    op["exc"] = type(t.exception()).__name__
+            t.add_done_callback(fin)
+            op["task"] = t
+            if any(o["done"] is None for o in ops):
+                stats["calls-overlapping"] += 1
+            if kind == "sub" and any(h[2] for h in held) and not any(o["done"] is None and o["kind"] == "sub" for o in ops):
+                stats["resub-overlapped"] += 1
+            ops.append(op)
+
+        def connection_going(t):
+            """bookkeeping when the connection `t` goes away under the library"""
+            nonlocal cut_seen
+            pending = [o for o in ops if o["done"] is None]
+            for o in pending:
+                o["disc"] = True
+            if any(o["kind"] == "sub" for o in pending) or any(h[2] for h in held if h[0].t is t):
+                cut_seen = True
+                stats["calls-cut"] += 1
+            held[:] = [h for h in held if h[0].t is not t]
+
+        def release(extra=b"", first=True):
+            """send the oldest withheld answer (with `extra` EVENT bytes in the same read, before or after it)"""
+            reply = b""
+            while held and not reply:
+                s, r, _, _ = held.pop(0)
+                if s.t is current():
+                    reply = r
+            t = current()
+            if t is None or not (reply or extra):
+                return
+            data = acc.frame(acc.sessions[t], (reply + extra) if first else (extra + reply))
+            if extra:
+                cuts = sorted(rnd.sample(range(1, len(data)), min(rnd.choice([0, 0, 1, 3]), len(data) - 1)))
+            else:
+                cuts = []
+            prev = 0
+            for c in cuts + [len(data)]:
+                t.feed(data[prev:c])
+                prev = c
+
+        for step in steps + ["#end"]:
+            f = step.split(":", 1)
+            k = f[0]
+            was_supported = bool(p.supports_subscribe)
+            secure_before = sum(1 for s in acc.order if s.secure)
+            before_len = {lid: len(logs[lid]) for lid in logs}
+            sent = []
+            fed = False
+            if k in ("sub", "unsub"):
+                issue(k, parse_chs(f[1]))
+            elif k == "hold":
+                st["hold"] = True
+            elif k == "rel":
+                release()
+            elif k == "relev":
+                if current() is not None and p.is_connected:
+                    data, sent = event_bytes(f[1].split("|"), evno)
+                    fed = True
+                    release(data, first=rnd.random() < 0.5)
+            elif k in ("free", "#end"):
+                st["hold"] = False
+                for _ in range(len(held) + 1):
+                    if not held:
+                        break
+                    release()
+                    await settle(loop)
+            elif k == "ev":
+                if current() is not None and p.is_connected:
+                    data, sent = event_bytes(f[1].split("|"), evno)
+                    fed = True
+                    release_held = held[:]
+                    del held[:]          # nothing is released: the burst alone
+                    release(data)
+                    held[:] = release_held
+            elif k == "drop":
+                if net.open:
+                    t = net.open[-1]
+                    connection_going(t)
+                    t.peer_close()
+            elif k == "conn":
+                if not p.is_connected:
+                    net.connect_outcomes.ok = 1
+                    conn.reconnect_soon()
+            elif k == "wait":
+                await settle(loop)
+                # an answer withheld for the library's 30 s request timeout: the library gives that connection up itself during this wait
+                for t in {h[0].t for h in held if loop.time() + 10.5 >= h[3] + 30}:
+                    connection_going(t)
+                await asyncio.sleep(10.5)
+            else:
+                raise ValueError(step)
+            await settle(loop)
+            if k == "#end":
+                # every call has had its answer (or lost its connection); one issued while disconnected gives up after 10 s
+                await asyncio.sleep(10.5)
+                await settle(loop)
+                for o in ops:
+                    if o["done"] is None:
+                        problems.append(("call-hangs", f"{o['kind']}({show_chs(o['chs'])}) has not returned 10.5 s after every request was answered"))
+                        o["task"].cancel()
+                await settle(loop)
+            stats["max-pending-calls"] = max(stats["max-pending-calls"], sum(1 for o in ops if o["done"] is None))
+            # ---- oracles (property text; the reference is the harness's own record of the calls and the accessory's record of the requests)
+            for o in ops:
+                if o["exc"] is not None and not o.get("reported"):
+                    # a call may fail only because it lost (or never had) its connection
+                    if not (o["exc"] == "AccessoryDisconnectedError" and o["disc"]):
+                        o["reported"] = True
+                        problems.append(("call-raised", f"{o['kind']}({show_chs(o['chs'])}) raised {o['exc']}" + ("" if o["disc"] else " although the connection was up from the call to its end")))
+            if was_supported and not p.supports_subscribe and not cut_seen:
+                problems.append(("fallback-without-cut", f"after {step}: the pairing fell back to polling (supports_subscribe=False) although no subscription request was cut off by a disconnection; nothing will be re-subscribed after the next reconnect"))
+            new_sessions = sum(1 for s in acc.order if s.secure) - secure_before
+            want = [[] for _ in range(new_sessions)] + [ks for ks, _ in sent]
+            for lid in logs:
+                got = logs[lid][before_len[lid]:]
+                if got != want:
+                    if new_sessions and not fed:
+                        sig = "not-told-connection-back"
+                    else:
+                        sig = "event-lost" if len(got) < len(want) else ("event-duplicated" if len(got) > len(want) else "event-wrong")
+                    problems.append((sig, f"after {step}: listener {lid} got {got} but {new_sessions} connection(s) came up and the accessory sent {[ks for ks, _ in sent]}"))
+                elif fed:
+                    gotv = vlogs[lid][before_len[lid]:]
+                    expv = [expected_values(ks, v) for ks, v in sent]
+                    if gotv != expv:
+                        sig = "event-out-of-order" if sorted(map(repr, gotv)) == sorted(map(repr, expv)) else "event-wrong"
+                        problems.append((sig, f"after {step}: listener {lid} was handed {short(gotv)} but the accessory sent {short(expv)}"))
+            if fed and not p.is_connected:
+                problems.append(("connection-broken-by-event", f"the connection was torn down while delivering {f[1]}"))
+            cur = current()
+            if cur is not None and p.is_connected and not st["hold"] and not held and all(o["done"] is not None for o in ops):
+                # quiescent and connected: nothing is on the wire, every call has returned
+                stats["stable-checks"] += 1
+                if p.supports_subscribe:
+                    must = must_be_subscribed(ops)
+                    reg = acc.sessions[cur].subs
+                    if not must <= reg:
+                        nth = sum(1 for s in acc.order if s.secure)
+                        sig = "not-resubscribed" if nth > 1 else "subscription-lost"
+                        asked = {(a, i) for a, i, e in acc.sessions[cur].sub_log if e}
+                        problems.append((sig, f"after {step}: on connection #{nth} the accessory is registered for {show_chs(reg)} (was asked on this connection for {show_chs(asked)}); the callers' subscriptions "
+                                              f"{show_chs(must - reg)} are missing (calls in issue order: " + "; ".join(f"{o['kind']}({show_chs(o['chs'])})@{o['issued']}..{o['done']}" for o in ops) + ")"))
+            if net.errors:
+                problems.append(("callback-raised", f"after {step}: {net.errors[0]}"))
+                del net.errors[:]
+        await p.shutdown()
+        await settle(loop)
+    return stats, problems
+
+
+OV_SETS = ["1.10", "1.11", "1.10,1.11", "2.20", "1.11,2.20,1.12", "2.20,1.10,2.21", "1.12,1.90"]
+
+
+def gen_overlap_directed(rng, n):
+    """every pair (and some triples) of calls x argument sets, issued while the answer to the first is withheld (or during the re-subscription
+    of a reconnect, or while disconnected with the reconnect overtaking them), answers released in each way, then disconnect/reconnect cycles"""
+    out = []
+    kinds = ["sub", "unsub"]
+    for k1, k2 in itertools.product(kinds, kinds):
+        for a, b in itertools.product(OV_SETS, OV_SETS):
+            for how in ("free", "rel", "relev"):
+                out.append((k1, a, k2, b, how))
+    rng.shuffle(out)
+    # a fixed core first, whatever the sample: every pair of call kinds x (disjoint, overlapping, two accessory ids) x every shape below
+    core = [(k1, a, k2, b, "free", shape) for k1, k2 in itertools.product(kinds, kinds)
+            for a, b in (("1.10", "1.11"), ("1.10,1.11", "1.11,2.20,1.12"), ("2.20,1.10,2.21", "1.12,1.90")) for shape in range(4)]
+    out = core + [x + (i % 4,) for i, x in enumerate(out)]
+    hists = []
+    for k1, a, k2, b, how, shape in out[:max(n, len(core))]:
+        pre = rng.choice([["conn", "sub:1.10,1.11,2.20"], ["conn", "sub:1.10,2.20", "sub:1.12"], ["sub:1.10,2.21", "wait", "conn"], ["conn"]])
+        if shape == 0:      # second call while the first is unanswered
+            mid = ["hold", f"{k1}:{a}", f"{k2}:{b}"]
+        elif shape == 1:    # three calls in flight
+            mid = ["hold", f"{k1}:{a}", f"{k2}:{b}", f"{rng.choice(kinds)}:{rng.choice(OV_SETS)}"]
+        elif shape == 2:    # calls during the re-subscription of a reconnect
+            mid = ["drop", "hold", "conn", f"{k1}:{a}", f"{k2}:{b}"]
+        else:               # calls issued while disconnected, overtaken by the reconnect
+            mid = ["drop", f"{k1}:{a}", f"{k2}:{b}", "conn"]
+        if how == "free":
+            rel = ["free"]
+        elif how == "rel":
+            rel = ["rel", "rel", "rel", "rel", "free"]
+        else:
+            rel = ["relev:c=1.10|c=2.20,1.11", "rel", "ev:c=1.11", "free"]
+        hists.append(pre + mid + rel + ["drop", "conn", "ev:c=1.10|c=2.20", "drop", "conn"])
+    return hists
+
+
+def gen_overlap_random(rng):
+    steps = ["conn"] if rng.random() < 0.8 else []
+    for _ in range(rng.randrange(4, 20)):
+        r = rng.random()
+        chs = ",".join(f"{rng.choice([1, 1, 2])}.{rng.choice([10, 11, 12, 20, 21, 90])}" for _ in range(rng.randrange(1, 4)))
+        if r < 0.25:
+            steps.append("sub:" + chs)
+        elif r < 0.42:
+            steps.append("unsub:" + chs)
+        elif r < 0.54:
+            steps.append("hold")
+        elif r < 0.64:
+            steps.append("rel")
+        elif r < 0.69:
+            steps.append("free")
+        elif r < 0.77:
+            steps.append("drop")
+        elif r < 0.87:
+            steps.append("conn")
+        elif r < 0.90:
+            steps.append("wait")
+        else:
+            bodies = "|".join("c=" + ",".join(f"{rng.choice([1, 2])}.{rng.choice([10, 11, 20])}" for _ in range(rng.randrange(1, 3))) + rng.choice(["", "", "@tc", "@cm", "@big"])
+                              for _ in range(rng.randrange(1, 3)))
+            steps.append(rng.choice(["ev:", "relev:"]) + bodies)
+    return steps + ["free", "conn", "drop", "conn"]
+
+
+def run_overlap(ctx: Ctx, cases):
+    loop = simnet.VLoop()
+    asyncio.set_event_loop(loop)
+    minimized = {}
+
+    def once(steps, seed):
+        out = loop.run_until_complete(overlap_scenario(loop, steps, seed))
+        pend = [t for t in asyncio.all_tasks(loop) if not t.done()]
+        for t in pend:
+            t.cancel()
+        if pend:
+            loop.run_until_complete(asyncio.gather(*pend, return_exceptions=True))
+        return out
+    try:
+        for i, (steps, kind, *rest) in enumerate(cases):
+            seed = rest[0] if rest else ctx.seed * 7907 + i
+            case = {"stream": "overlap", "events": steps, "seed": seed}
+            try:
+                stats, problems = once(steps, seed)
+            except Exception as e:  # noqa: BLE001 - misbehaving library code must not stop the harness
+                stats, problems = {}, [("harness-tripped", f"the scenario stopped with {type(e).__name__}: {e}")]
+            ctx.evaluations += 1
+            ctx.nontrivial.add(("overlap",) + tuple(steps))
+            ctx.dist["kind:" + kind] += 1
+            for e in steps:
+                ctx.dist["ov:" + e.split(":")[0]] += 1
+            for k, v in stats.items():
+                if k.startswith("max-"):
+                    ctx.dist["ov-" + k] = max(ctx.dist["ov-" + k], v)
+                else:
+                    ctx.dist["ov-" + k] += v
+            if stats.get("calls-overlapping"):
+                ctx.dist["ov-histories-with-overlapping-calls"] += 1
+            seen = set()
+            for sig, text in problems:
+                if sig in seen:
+                    continue
+                seen.add(sig)
+                vcase = dict(case)
+                if sig not in minimized and len(minimized) < 4:
+                    def still(evs, sig=sig):
+                        _, pr = once(evs, seed)
+                        return any(s2 == sig for s2, _ in pr)
+                    small = shrink_list(steps, still)
+                    minimized[sig] = small
+                    vcase["minimized_events"] = small
+                    text = text + f" [minimal history: {' '.join(small)}]"
+                ctx.violation(f"ip/overlap/{sig}", text, vcase)
+            if i in (0, len(cases) - 1):
+                ctx.sample(case)
+    finally:
+        asyncio.set_event_loop(None)
+        loop.close()
+
+
+def overlap_cases(ctx, mult=1):
+    rng = ctx.rng
+    cases = [(h, "overlap-directed") for h in gen_overlap_directed(rng, ctx.budget(300, 588) * mult)]
+    cases += [(gen_overlap_random(rng), "overlap-random") for _ in range(ctx.budget(400, 6000) * mult)]
+    return cases
+
+
 def active_ids(p, cb_ids):
     return {cb_ids[cb] for cb in p.listeners if cb in cb_ids}
 
 
+def short(x, n=300):
+    t = repr(x)
+    return t if len(t) <= n else t[:n] + "..."
+
+
+def model_event(e):
+    if e.startswith("ev:"):
+        return "ev:" + "|".join(model_body(b) for b in e[3:].split("|"))
+    return e
+
+
 def model_line(events):
-    return "sb.run " + " ".join(e.replace(":n", ":n").replace(" ", "") for e in events)
+    return "sb.run " + " ".join(model_event(e).replace(":n", ":n").replace(" ", "") for e in events)
 
 
 ALPHA = ["sub:1.10,2.20,1.11", "sub:2.21", "sub:1.12,1.90", "unsub:1.10", "unsub:2.20,2.21", "cutsub:1.12", "drop", "conn", "ladd:1:n", "ladd:2:x", "ladd:3:rm", "ladd:4:add~5", "lrem:1",
-         "ev:c=1.10", "ev:c=1.10,2.20|c=1.11", "ev:empty|c=2.21|notjson", "ev:notutf8|c=1.10"]
+         "ev:c=1.10", "ev:c=1.10,2.20|c=1.11", "ev:empty|c=2.21|notjson", "ev:notutf8|c=1.10",
+         "ev:c=1.10|c=1.11,2.20@tc|c=1.10", "ev:c=2.21@cm|c=1.10@blk|c=1.10,1.11@tco"]
 
 
 def gen_exhaustive(depth, rng, sample=None):
@@ -275,6 +810,11 @@ def gen_random(rng):
                 b = rng.random()
                 if b < 0.75:
                     bodies.append("c=" + ",".join(f"{rng.choice([1, 2])}.{rng.choice([10, 11, 20])}" for _ in range(rng.randrange(1, 3))))
+                    d = rng.random()
+                    if d < 0.4:
+                        bodies[-1] += "@" + rng.choice(LENIENT)
+                    elif d < 0.5:
+                        bodies[-1] += "@" + rng.choice(NEARJSON)
                 else:
                     bodies.append(rng.choice(["empty", "notjson", "notutf8"]))
             evs.append("ev:" + "|".join(bodies))
@@ -287,8 +827,9 @@ def run_cases(ctx: Ctx, driver: Driver, cases):
     impl, lines, cs = [], [], []
     minimized = {}
     try:
-        for i, (events, kind) in enumerate(cases):
-            out, problems = loop.run_until_complete(scenario(loop, events, ctx.seed * 104729 + i))
+        for i, (events, kind, *rest) in enumerate(cases):
+            sseed = rest[0] if rest else ctx.seed * 104729 + i
+            out, problems = loop.run_until_complete(scenario(loop, events, sseed))
             pend = [t for t in asyncio.all_tasks(loop) if not t.done()]
             for t in pend:
                 t.cancel()
@@ -302,7 +843,9 @@ def run_cases(ctx: Ctx, driver: Driver, cases):
                 if e.startswith("ev:"):
                     for b in e[3:].split("|"):
                         ctx.dist["body:" + b.split("=")[0]] += 1
-            case = {"stream": "subs", "events": events, "seed": ctx.seed * 104729 + i}
+                        if "@" in b:
+                            ctx.dist["body-dialect:" + b.split("@")[1] + (":event" if event_keys(b) is not None else ":rejected-by-hkjson")] += 1
+            case = {"stream": "subs", "events": events, "seed": sseed}
             seen = set()
             for sig, text in problems:
                 if sig not in seen:
@@ -348,12 +891,20 @@ def cases_for(ctx):
 
 def run(ctx: Ctx, driver: Driver):
     run_cases(ctx, driver, cases_for(ctx))
+    run_overlap(ctx, overlap_cases(ctx))
 
 
 def replay(ctx: Ctx, driver: Driver, case):
-    run_cases(ctx, driver, [(case["events"], "replay")])
+    n = len(ctx.violations)
+    if case.get("stream") == "overlap":
+        run_overlap(ctx, [(case["events"], "replay", case.get("seed", 0))])
+    else:
+        run_cases(ctx, driver, [(case["events"], "replay", case["seed"])] if "seed" in case else [(case["events"], "replay")])
+    return [v["signature"] for v in ctx.violations[n:]]
 
 
 def search(ctx: Ctx, driver: Driver, broken):
     rng = ctx.rng
     run_cases(ctx, driver, [(gen_random(rng), "search") for _ in range(ctx.budget(3000, 30000))])
+    if not ctx.violations:
+        run_overlap(ctx, overlap_cases(ctx, 4))
